@@ -87,8 +87,113 @@ let split_post (obs : string) : string * string =
   | [a; b] -> (a, b)
   | _ -> (obs, "?")
 
+
+(* ---------- hshare: requests held by several instances of one http provider (Model/AmmoShare.v) ---------- *)
+
+let hex_decode (h : string) : string = if h = "-" then "" else String.init (String.length h / 2) (fun i -> Char.chr (int_of_string ("0x" ^ String.sub h (2 * i) 2)))
+let hex_encode (s : string) : string = if s = "" then "-" else String.concat "" (List.map (fun c -> Printf.sprintf "%02x" (Char.code c)) (List.of_seq (String.to_seq s)))
+
+let parse_kvs (s : string) : (string * string) list =
+  if s = "-" then [] else List.map (fun kv -> match String.split_on_char '=' kv with
+      | [k; v] -> (hex_decode k, "l" ^ v) | _ -> failwith "kv") (split ',' s)
+
+(* http.Header.Add in config order: one entry per key, values in order *)
+let group_cfg (cfg : (string * string) list) : (string * string list) list =
+  List.fold_left (fun acc (k, v) ->
+      if List.mem_assoc k acc then List.map (fun (k', vs) -> if k' = k then (k', vs @ [v]) else (k', vs)) acc
+      else acc @ [(k, [v])]) [] cfg
+
+(* capacity append([]string(nil), vv...) leaves: the allocator's size class for n 16-byte strings *)
+let append_slack (n : int) : int =
+  let classes = [16; 32; 48; 64; 80; 96; 112; 128; 144; 160; 176; 192; 208; 224; 240; 256; 288; 320; 352; 384; 416; 448; 480; 512;
+                 576; 640; 704; 768; 896; 1024; 1152; 1280; 1408; 1536; 1792; 2048] in
+  match List.find_opt (fun c -> c >= 16 * n) classes with Some c -> c / 16 - n | None -> 0
+
+let share_predict (dec : string) (preload : string) (mws : string) (cfg : string) (file : string) (nammo : string)
+    (ops : string) (obs : string) : string * string * bool =
+  let cfg = group_cfg (parse_kvs cfg) and file = parse_kvs file in
+  let file1 = List.map (fun (k, v) -> ((k, [v]), O)) file in
+  let own = if dec = "raw" then file1 else [] in
+  let stored =
+    match dec with
+    | "uri" | "uripost" ->     (* commonHeader.Clone(), then config keys the file lacks, copied by append *)
+        file1 @ List.filter_map (fun (k, vs) -> if List.mem_assoc k file then None
+                                  else Some ((k, vs), nat_of_int (append_slack (List.length vs)))) cfg
+    | "raw" -> List.map (fun (k, vs) -> ((k, vs), O)) cfg                      (* decodedConfigHeaders.Clone() *)
+    | _ -> List.map (fun (k, vs) -> ((k, vs), O)) cfg @ file1 in              (* Clone(), then Set per entry header *)
+  let mwl = List.map (fun m -> match String.split_on_char '.' m with
+      | k :: _ -> MwAdd (if k = "-" then "Date" else hex_decode k) | _ -> failwith "mw") (split ',' mws) in
+  let c = { p_clip = true; p_gc = (fun n -> n); p_mws = mwl; p_own = (fun _ -> own); p_stored = (fun _ -> stored) } in
+  let case_ops = split ',' ops and items = split ' ' obs in
+  if List.length case_ops <> List.length items then ("run", "BAD:hshare:" ^ (if String.length obs > 40 then String.sub obs 0 40 else obs), false)
+  else begin
+    let inst o = nat_of_int (int_of_string (String.sub o 1 (String.length o - 1))) in
+    let plan = List.concat (List.map2 (fun o it ->
+        match o.[0] with
+        | 'a' -> (match String.split_on_char ':' it with
+            | _ :: t :: _ -> [PAcq (inst o, "@" ^ t)] | _ -> [PAcq (inst o, "@?")])
+        | 'r' -> [PShoot (inst o)]
+        | _ -> []) case_ops items) in
+    let n = nat_of_int (int_of_string nammo) in
+    let fresh = (preload = "0" && dec <> "jsonarr") in
+    let pops = (if fresh then [] else decode_all n) @ ops_of_plan fresh n O plan in
+    let hdr (l : (string * string list) list) : string =
+      if l = [] then "-" else
+        String.concat ";" (List.map (fun (k, vs) -> hex_encode k ^ "=" ^ String.concat "|" vs)
+                             (List.sort (fun (a, _) (b, _) -> compare a b) l)) in
+    let render (outs : (string * string list) list option list) : string =
+      let rec go pops outs acc = match pops, outs with
+        | ODecode _ :: pt, _ :: ot -> go pt ot acc
+        | OAcq (i, _, v) :: pt, o :: ot ->
+            go pt ot ((Printf.sprintf "a%d:%s:%s" (int_of_nat i) (String.sub v 1 (String.length v - 1))
+                         (match o with Some l -> hdr l | None -> "none")) :: acc)
+        | OShoot i :: pt, o :: ot ->
+            go pt ot ((Printf.sprintf "r%d:%s" (int_of_nat i) (match o with Some l -> hdr l | None -> "none")) :: acc)
+        | _ -> List.rev acc in
+      let rs = ref (go pops outs []) in
+      String.concat " " (List.map (fun o -> if o = "w" then "w" else (match !rs with x :: t -> rs := t; x | [] -> "?")) case_ops) in
+    let keqb (a : string) (b : string) = (a = b) in
+    let pred = render (prun keqb c pinit pops) in
+    let want = render (spec_run keqb c (fun _ -> false) (fun _ -> None) pops) in
+    (* judged on the observation alone: (1) what an instance finds in its request when it shoots is what it acquired;
+       (2) every delivery of the same stored ammo carries the same literal values (only middleware values differ).
+       Agreement of the acquired request with spec_request beyond that is correspondence (prediction), not C11. *)
+    let hdr_of it = match String.split_on_char ':' it with
+      | [_; _; h] -> h | [_; h] -> h | _ -> it in
+    let lits_of h = String.concat ";" (List.map (fun kv -> match String.split_on_char '=' kv with
+        | [k; vs] -> k ^ "=" ^ String.concat "|" (List.filter (fun v -> v <> "" && v.[0] <> '@') (String.split_on_char '|' vs))
+        | _ -> kv) (split ';' h)) in
+    let held = Hashtbl.create 8 and first_lits = Hashtbl.create 8 in
+    let iso_ok = ref true and stable_ok = ref true and j = ref 0 in
+    let nam = int_of_string nammo in
+    List.iter2 (fun o it ->
+        match o.[0] with
+        | 'a' ->
+            Hashtbl.replace held (String.sub o 1 (String.length o - 1)) (hdr_of it);
+            let a = !j mod nam in incr j;
+            (match Hashtbl.find_opt first_lits a with
+             | None -> Hashtbl.replace first_lits a (lits_of (hdr_of it))
+             | Some l -> if l <> lits_of (hdr_of it) then stable_ok := false)
+        | 'r' ->
+            (match Hashtbl.find_opt held (String.sub o 1 (String.length o - 1)) with
+             | Some h -> if h <> hdr_of it then iso_ok := false
+             | None -> iso_ok := false)
+        | _ -> ()) case_ops items;
+    let ok = !iso_ok && !stable_ok in
+    let why =
+      if not !iso_ok then "hshare:request-held-by-an-instance-altered-by-another-acquire:" ^ dec
+      else "hshare:stored-ammo-altered-between-deliveries:" ^ dec in
+    (* C11_share_isolated: the pointer-level model and the value-level specification agree *)
+    let pred = if pred = want then want else "model-differs-from-spec" in
+    let nacq = List.length (List.filter (fun o -> o.[0] = 'a') case_ops) in
+    (pred, verdict ok why, nacq >= 2 && List.mem "w" case_ops)
+  end
+
 let predict (c : string) (obs : string) : string * string * bool =
   match split_blank c with
+  | ["hshare"; dec; preload; mws; cfg; file; nammo; ops] ->
+      if obs = "inconclusive-clock" then (obs, "ok", false)
+      else share_predict dec preload mws cfg file nammo ops obs
   | ["own"; ninst; _nammo; _] ->
       if obs = "hang" then ("run", "BAD:own:engine-hang", false)
       else begin
